@@ -231,6 +231,9 @@ def _try_remove_group(group_el, push_opacity=True):
                 if _is_redundant(child.tag):
                     continue
                 _inherit_attrib({"opacity": opacity}, child)
+                # a group we kept earlier may have just become fully transparent
+                if _is_group(child):
+                    _try_remove_group(child)
     else:
         # We're keeping the group, but we promised groups only have opacity
         group_el.attrib.clear()
